@@ -5,21 +5,14 @@ open MirGen
 
 /-! ### validation -/
 
-theorem reMatch_iff (s : Str) :
-    reMatch s = true ↔ (∃ l : Label, l.render = s) ∨ (∃ l : Label, l.render ++ ['\n'] = s) := by
+theorem reMatch_iff (s : Str) : reMatch s = true ↔ ∃ l : Label, l.render = s := by
   unfold reMatch inLanguage
   constructor
   · intro h
-    simp only [Bool.or_eq_true, Bool.and_eq_true, Option.isSome_iff_exists, beq_iff_eq] at h
-    rcases h with ⟨l, hl⟩ | ⟨hlast, l, hl⟩
-    · exact Or.inl ⟨l, recognize_sound hl⟩
-    · right
-      obtain ⟨ys, rfl⟩ := List.getLast?_eq_some_iff.1 hlast
-      rw [List.dropLast_concat] at hl
-      exact ⟨l, by rw [recognize_sound hl]⟩
-  · rintro (⟨l, rfl⟩ | ⟨l, rfl⟩)
-    · simp [recognize_render]
-    · simp [recognize_render]
+    obtain ⟨l, hl⟩ := Option.isSome_iff_exists.1 h
+    exact ⟨l, recognize_sound hl⟩
+  · rintro ⟨l, rfl⟩
+    simp [recognize_render]
 
 theorem pyValidate_ok_iff (s : Str) : pyValidate s = .ok () ↔ reMatch s = true := by
   unfold pyValidate; split <;> simp_all
@@ -28,7 +21,7 @@ theorem pyValidate_total (s : Str) : pyValidate s = .ok () ∨ pyValidate s = .e
   unfold pyValidate; split <;> simp
 
 theorem pyValidate_render (l : Label) : pyValidate l.render = .ok () :=
-  (pyValidate_ok_iff _).2 ((reMatch_iff _).2 (Or.inl ⟨l, rfl⟩))
+  (pyValidate_ok_iff _).2 ((reMatch_iff _).2 ⟨l, rfl⟩)
 
 /-! ### sets -/
 
